@@ -92,3 +92,9 @@ claim('C19',
       'demux guards.',
       'equality of the graphs for concrete configurations (needs evaluation); finding F5 (forward link to a narrower block) is a '
       'plan-shape issue reported under C19.R6 when armed.')
+claim('C15',
+      'file, CSV and parallel-iterator sources derive their partition from metadata.global_id over metadata.replicas.len() (never a '
+      'per-host id); IteratorSource/ChannelSource return the constant Replication::One and their Clone::clone cannot return; CSV '
+      'aligns start and end with the same terminator and computes end from the unaligned start; FileSource pairs `current <= end` with '
+      'an unconditional first-line discard; every Range<_> generate_iterator clamps end-start at zero.',
+      'byte/line arithmetic for concrete file contents and the chunk arithmetic of generate_iterator (value level).')
